@@ -74,6 +74,13 @@ def check_roundtrip(case, ev):
         return core.exc_finding(exc, case, "decrypt/")
     if p != plain:
         return Finding("roundtrip/mismatch", "decrypt(encrypt(%r,%r)=%r) = %r" % (plain, salt, c, p), case)
+    # the $9$ string just produced is a legal plaintext too (characters 36..122): once more, same salt
+    c2, exc = guarded(js.juniper_nonrandom_encrypt, c, salt)
+    if exc is not None:
+        return core.exc_finding(exc, case, "encrypt/")
+    p2, exc = guarded(js.juniper_decrypt, c2)
+    if exc is not None or p2 != c or J.decode(c2) != c:
+        return Finding("roundtrip/own-output-as-plaintext", "encrypt(%r,%r) = %r; encrypting that string again under the same salt gives %r, which decrypts to %r" % (plain, salt, c, c2, p2 if exc is None else exc), case)
     return None
 
 
